@@ -42,7 +42,12 @@ fn probes() -> Vec<TileCoord3> {
 
 fn lookups(env: &Env, r: &dyn TilesReaderTrait) -> bool {
 	let mut ok = true;
-	for c in probes() {
+	// two passes plus neighbours in the same blocks: the second call on a reader runs on whatever the first
+	// one (possibly a failed one) left in the reader's caches
+	let mut ps = probes();
+	ps.extend([(3u8, 2u32, 2u32), (9, 255, 257), (9, 257, 256), (1, 0, 0), (0, 0, 0)].iter().map(|k| TileCoord3 { x: k.1, y: k.2, z: k.0 }));
+	ps.extend(probes());
+	for c in ps {
 		if env.rt.block_on(r.get_tile_data(&c)).is_err() {
 			ok = false;
 		}
@@ -208,6 +213,27 @@ fn multibyte_offsets(wrappers: &[(&str, &str)], tails: &[&str], f: &mut dyn FnMu
 					let s = format!("{pre}{}{m}{t}", fill.repeat(pad));
 					f(s.as_bytes());
 					let s2 = format!("{pre}{m}{}{t}", fill.repeat(pad));
+					f(s2.as_bytes());
+				}
+			}
+		}
+	}
+}
+
+/// one multi-byte character (2, 3 and 4 bytes) pushed over every byte offset 40..=600 of a long document,
+/// so that it straddles any fixed-size window a decoder may cut out of its input
+fn multibyte_long(wrappers: &[(&str, &str)], tails: &[&str], f: &mut dyn FnMut(&[u8])) {
+	for m in ["\u{e9}", "\u{0800}", "\u{1F600}"] {
+		for (pre, fill) in wrappers {
+			if fill.is_empty() {
+				continue;
+			}
+			for pad in 40..=600usize {
+				let body = fill.repeat(pad / fill.len() + 1);
+				for t in tails {
+					let s = format!("{pre}{}{m}{t}", &body[..pad]);
+					f(s.as_bytes());
+					let s2 = format!("{pre}{}{m}{}{t}", &body[..pad], &body[..pad.min(300)]);
 					f(s2.as_bytes());
 				}
 			}
@@ -485,6 +511,7 @@ pub fn for_each_case(entry: &str, thorough: bool, f: &mut dyn FnMut(&[u8])) {
 		"json" => {
 			all_strings(&["[", "]", "{", "}", "\"", "\\", ",", ":", "1", "-", "e", "n", "u", "\u{e9}", "\u{1F600}"], if thorough { 6 } else { 5 }, f);
 			multibyte_offsets(&[("", " "), ("[", "1,"), ("\"", "a"), ("{\"", "k"), ("[", " ")], &["x", "}", "\\u00zz\"", ":", "tru", "1e", "\"", "", "\\", "\\u00"], f);
+			multibyte_long(&[("", " "), ("[", "1,"), ("\"", "a"), ("{\"k\":\"", "a")], &["x", "}", "\"", ""], f);
 			for k in 0..=12u32 {
 				let n = 1usize << k;
 				f(format!("{}{}", "[".repeat(n), "]".repeat(n)).as_bytes());
@@ -499,6 +526,7 @@ pub fn for_each_case(entry: &str, thorough: bool, f: &mut dyn FnMut(&[u8])) {
 		"tilejson_str" => {
 			let docs: Vec<String> = crate::checks::c17::documents_for_c19();
 			text_mutations(&docs, &["\"", "\\", "[", "{", "-", "9", "\u{e9}", "null", "1e999"], f);
+			multibyte_long(&[("{\"attribution\":\"", "a"), ("{\"name\":\"x\",\"bounds\":[", "1,")], &["\"", "\"}", "", "]}"], f);
 			for s in ["{\"bounds\":[1,2,3]}", "{\"bounds\":[\"a\",2,3,4]}", "{\"bounds\":[200,0,300,10]}", "{\"center\":[1,2]}", "{\"center\":[1,2,300]}", "{\"minzoom\":-1}", "{\"minzoom\":256}", "{\"minzoom\":1.5}", "{\"vector_layers\":{}}", "{\"vector_layers\":[1]}", "{\"vector_layers\":[{\"id\":1}]}", "{\"vector_layers\":[{\"id\":\"a\",\"fields\":[]}]}", "{\"vector_layers\":[{\"id\":\"a\",\"fields\":{\"k\":1}}]}", "{\"vector_layers\":[{\"id\":\"a\",\"minzoom\":\"x\"}]}", "[]", "1", "\"x\"", "{\"tiles\":\"x\"}", "{\"tilejson\":3}"] {
 				f(s.as_bytes());
 			}
@@ -515,12 +543,14 @@ pub fn for_each_case(entry: &str, thorough: bool, f: &mut dyn FnMut(&[u8])) {
 					}
 				}
 			}
+			multibyte_long(&[("{\"attribution\":\"", "a")], &["\"", "\"}", ""], f);
 			f(&[0xff, 0xfe]);
 			f(&[]);
 		}
 		"csv" => {
 			all_strings(&["a", ",", "\"", "\n", "\r", "\u{e9}", "\u{1F600}", "1"], if thorough { 7 } else { 6 }, f);
 			multibyte_offsets(&[("", "a"), ("\"", "a"), ("a,", "b"), ("\"a\"", "")], &["\"b", "\"", "\n\"", ",\"x", ""], f);
+			multibyte_long(&[("", "a"), ("\"", "a"), ("a,", "b")], &["\"b", "\"", ""], f);
 		}
 		"csv_file" => {
 			for s in ["", "\n", "data_id\n", "data_id,v\n", "data_id,v\nx\n", "data_id,v\nx,1,2\n", "data_id,v\n\"x\"y,1\n", "v\n1\n", "data_id,v\nx,99999999999999999999999\n", "data_id,v\nx,-99999999999999999999999\n", "data_id,v\nx,1.5e\n", "data_id,v\nx,.5\n", "data_id,v\nx,-\n", "data_id,data_id\nx,y\n", "\"data_id\n", "data_id,v\n\u{e9},\u{1F600}\n", "data_id,v\r\nx,1\r\n", ",\n,\n", "data_id,v\nx,18446744073709551616\n", "data_id,v\nx,-9223372036854775809\n", "data_id,v\nx,00000000000000000000000000001\n"] {
@@ -531,6 +561,7 @@ pub fn for_each_case(entry: &str, thorough: bool, f: &mut dyn FnMut(&[u8])) {
 		"vpl" => {
 			all_strings(&["a", "1", "k", "=", "\"", "\\", "[", "]", ",", "|", " ", "\u{e9}", "\u{1F600}"], if thorough { 6 } else { 5 }, f);
 			multibyte_offsets(&[("", " "), ("a k=\"", "x"), ("a [", " "), ("a k=[", "1,")], &["=", "]", "\"", "|", "\\q", "", "[", "\u{e9}"], f);
+			multibyte_long(&[("a k=\"", "x"), ("a [", " "), ("a k=[", "1,")], &["=", "]", "\"", ""], f);
 			for k in 0..=12u32 {
 				let n = 1usize << k;
 				f(format!("{}a{}", "a [".repeat(n), "]".repeat(n)).as_bytes());
